@@ -89,16 +89,17 @@ def intrCheck (e : Env) (zd : TaskD) : Bool :=
     (e.taskD t).deps.all (fun dp => dp.target != e.tasks.size) &&
     !(e.taskD t).children.contains e.tasks.size &&
     decide ((e.taskD t).prio > zd.prio) && (e.taskD t).forward) &&
-  zd.leaf && zd.parent.isNone && zd.allDeps.isEmpty && zd.deps.isEmpty && zd.limits.isEmpty && zd.forward && !e.projAlap
+  zd.leaf && zd.parent.isNone && zd.allDeps.all (fun dp => decide (dp.target < e.tasks.size)) && zd.limits.isEmpty &&
+    zd.forward && !e.projAlap
 
 theorem intrCheck_sound (e : Env) (zd : TaskD) (h : intrCheck e zd = true) :
     Intr e zd ∧ FwdEnv e ∧ zd.forward = true ∧ ∀ t, t < e.tasks.size → (e.taskD t).prio > zd.prio := by
   unfold intrCheck at h
   simp only [Bool.and_eq_true, List.all_eq_true, List.mem_range, Bool.not_eq_true', decide_eq_true_eq,
     Option.isNone_iff_eq_none, List.isEmpty_iff, bne_iff_ne, ne_eq] at h
-  obtain ⟨⟨⟨⟨⟨⟨⟨hall, hleaf⟩, hpar⟩, hdeps⟩, hdeps'⟩, hlim⟩, hfwd⟩, hproj⟩ := h
+  obtain ⟨⟨⟨⟨⟨⟨hall, hleaf⟩, hpar⟩, hdeps⟩, hlim⟩, hfwd⟩, hproj⟩ := h
   have hin : ∀ t, e.tasks.size ≤ t → e.taskD t = {} := fun t ht => taskD_default e t ht
-  refine ⟨⟨?_, hleaf, hpar, hdeps, hdeps', hlim, ?_, ?_, ?_⟩, ⟨hproj, ?_⟩, hfwd, ?_⟩
+  refine ⟨⟨?_, hleaf, hpar, hdeps, hlim, ?_, ?_, ?_⟩, ⟨hproj, ?_⟩, hfwd, ?_⟩
   · intro t p hp
     by_cases ht : t < e.tasks.size
     · have := (hall t ht).1.1.1.1.1
@@ -127,8 +128,8 @@ theorem intrCheck_sound (e : Env) (zd : TaskD) (h : intrCheck e zd = true) :
     exact (hall t ht).1.2
 
 /-- **C09, the two runs** (`Proofs/Intruder`).  `ext e zd` is the forward project `e` with one more task `zd` appended — a
-    top-level leaf without dependencies and limits of its own that nothing depends on and no container holds, whose priority
-    is strictly lower than every other task's; resources, calendars, limits and horizon are those of `e` ("everything still
+    top-level leaf without limits of its own, which may depend on existing tasks but on which nothing depends and which no
+    container holds, whose priority is strictly lower than every other task's; resources, calendars, limits and horizon are those of `e` ("everything still
     fits the horizon").  Then in the schedule of `ext e zd` every other task has exactly the attributes — scheduled flag,
     start, end — it has in the schedule of `e`: whatever the added task's effort, resource, pinned start or calendar
     position, however the two compete for resources and limits. -/
@@ -152,7 +153,7 @@ def base2 : RawProj :=
     tasks := [{ effort := some 4, alloc := some ([0], []) },
               { effort := some 2, alloc := some ([0], []), deps := [{ target := 0 }] }] }
 
-def zlow : TaskD := { effort := 3, hasAlloc := true, alloc := [0], prio := 1 }
+def zlow : TaskD := { effort := 3, hasAlloc := true, alloc := [0], prio := 1, allDeps := [{ target := 0 }], deps := [{ target := 0 }] }
 
 example : intrCheck (elaborate base2).env zlow = true := by decide +kernel
 example : treeCheck (elaborate base2).env = true := by decide +kernel
